@@ -269,6 +269,11 @@ pub enum Flavour {
     Coupled,
     /// bounded-queue-like: flush always completes; not ready iff buffer full
     Indep,
+    /// own write buffer over an always-writable medium: not ready iff the buffer is full, and
+    /// poll_flush itself empties the buffer and completes. A task that was told "not ready" is
+    /// woken when the capacity returns, also when its own flush call freed it (the Sink contract:
+    /// poll_ready -> Pending registers the task to be notified when it should be called again).
+    FlushFrees,
 }
 
 #[derive(Clone, Copy, Debug, PartialEq, Eq, Hash, serde::Serialize, serde::Deserialize)]
@@ -386,6 +391,22 @@ impl<I> Core<I> {
             w.wake();
         }
         n
+    }
+    /// the transport's own flush moves everything buffered to the peer
+    fn flush_out(&mut self) {
+        let was_full = self.buf.len() >= self.cap;
+        while let Some(m) = self.buf.pop_front() {
+            self.log.push(Rec::PeerSaw {
+                side: self.side,
+                msg: m.clone(),
+            });
+            self.delivered.push(m);
+        }
+        if was_full {
+            if let Some(w) = self.ww.take() {
+                w.wake();
+            }
+        }
     }
     pub fn blocked(&self) -> bool {
         !self.buf.is_empty()
@@ -538,6 +559,9 @@ impl<S: ToMsg, I> Sink<S> for MockTransport<S, I> {
             c.rec(Op::Flush, Res::Pending, None);
             Poll::Pending
         } else {
+            if c.flavour == Flavour::FlushFrees {
+                c.flush_out();
+            }
             c.rec(Op::Flush, Res::Ok, None);
             Poll::Ready(Ok(()))
         }
@@ -554,6 +578,9 @@ impl<S: ToMsg, I> Sink<S> for MockTransport<S, I> {
             c.rec(Op::Close, Res::Pending, None);
             Poll::Pending
         } else {
+            if c.flavour == Flavour::FlushFrees {
+                c.flush_out();
+            }
             c.closed = true;
             c.rec(Op::Close, Res::Ok, None);
             Poll::Ready(Ok(()))
